@@ -444,7 +444,7 @@ def _semver_shard(shard: T.Tuple[int, int], ev: Evidence, fails: T.List[Failure]
     objs = [SemVer(s) for s in S]
     refs = [R.parse_version(s) for s in S]
     sigs: T.Set[str] = set()
-    npairs = ntrip = nt = 0
+    npairs = ntrip = nt = ntrip_nt = 0
     for i in range(lo, min(hi, len(S))):
         for j in range(len(S)):
             npairs += 1
@@ -462,6 +462,8 @@ def _semver_shard(shard: T.Tuple[int, int], ev: Evidence, fails: T.List[Failure]
             xy_eq = x == y
             for k, z in enumerate(objs):
                 ntrip += 1
+                if not i == j == k:
+                    ntrip_nt += 1
                 if 'semver/transitivity' in sigs:
                     continue
                 if (xy_lt and y < z and not x < z) or (xy_eq and y == z and not x == z) or (y <= z and not x <= z) or \
@@ -471,7 +473,7 @@ def _semver_shard(shard: T.Tuple[int, int], ev: Evidence, fails: T.List[Failure]
                         sigs.add(f.sig)
                         fails.append(f)
     ev.evaluations += npairs + ntrip
-    ev.add_distinct(nt + ntrip)
+    ev.add_distinct(nt + ntrip_nt)
     ev.event('semver/pairs', npairs)
     ev.event('semver/triples', ntrip)
     if lo == 0:
@@ -490,12 +492,16 @@ def _semver_text_shard(shard: T.Tuple[int, int], ev: Evidence, fails: T.List[Fai
     seed, n = shard
     num = st.sampled_from([0, 1, 2, 9, 10, 11, 99, 100])
     pre = st.one_of(st.just(()), st.tuples(st.sampled_from(IDENT_POOL_FIRST)).flatmap(
+        lambda t: st.lists(st.sampled_from(IDENT_POOL_REST), max_size=3).map(lambda r: t + tuple(r))), st.tuples(st.sampled_from(IDENT_POOL_FIRST)).flatmap(
         lambda t: st.lists(st.sampled_from(IDENT_POOL_REST), max_size=3).map(lambda r: t + tuple(r))))
     build = st.sampled_from(['', '', '+b', '+001', '+b-1.x', '+exp.sha.5114f85'])
     ver = st.tuples(num, num, num, pre, build).map(
         lambda t: f'{t[0]}.{t[1]}.{t[2]}' + ('-' + '.'.join(t[3]) if t[3] else '') + t[4])
     # two related versions: the second one is the first one with one part redrawn
-    strat = st.tuples(ver, ver, st.integers(0, 4)).map(lambda t: [t[0], _mix(t[0], t[1], t[2])])
+    strat = st.one_of(st.tuples(ver, ver, st.sampled_from([0, 1, 2, 3, 3, 4])).map(lambda t: [t[0], _mix(t[0], t[1], t[2])]),
+                      st.tuples(ver, ver).map(lambda t: [t[0], _same_core(t[0], t[1])]),
+                      st.tuples(ver, ver).map(lambda t: [t[0], _same_core(t[0], t[1])]),
+                      st.tuples(ver, ver).map(list))
 
     def check(case: T.List[str]) -> T.Optional[Failure]:
         a, b = case
@@ -505,6 +511,13 @@ def _semver_text_shard(shard: T.Tuple[int, int], ev: Evidence, fails: T.List[Fai
 
     campaign(strat, check, n, seed, fails)
     ev.exclude('known G3/G4: first pre-release identifier numeric / later identifier digit-leading alphanumeric (never generated; dedicated probes)', 0)
+
+
+def _same_core(a: str, b: str) -> str:
+    """b's pre-release and build metadata on a's major.minor.patch"""
+    core = a.split('+')[0].split('-')[0]
+    rest = b[len(b.split('+')[0].split('-')[0]):]
+    return core + rest
 
 
 def _mix(a: str, b: str, k: int) -> str:
@@ -721,7 +734,10 @@ def _cfg_shard(shard: T.Tuple[str, int, int, int, int], ev: Evidence, fails: T.L
         for idx in range(lo, hi):
             if stride > 1 and (idx + seed) % stride:
                 continue
-            run_tree(idx, level3_tree(idx, L2))
+            t3 = level3_tree(idx, L2)
+            if all(c[0] in ('name', 'eq') for c in (t3[1] if t3[0] != 'not' else [t3[1]])):
+                continue            # depth <= 2: already enumerated by the 'l2' shards
+            run_tree(idx, t3)
         if lo == 0:
             t = level3_tree(12345, L2)
             ev.case({'tree': t, 'text': R.cfg_render(t, 0)}, cls='cfg_tree_depth3', n=0)
